@@ -200,7 +200,55 @@ func (e *Engine) runUnits(names []string, opts SolveOpts) []*UnitResult {
 		}(i, n)
 	}
 	wg.Wait()
+	lastChance(results, opts)
 	return results
+}
+
+// lastChance gives the few obligations that ended undecided (every back end timed out or
+// answered unknown - never a `sat`) one more try after all other solver work of the run has
+// finished, with three times the recheck budget. Solver budgets are wall-clock, so on a loaded
+// machine an obligation that normally discharges in a second can time out; this pass keeps
+// that from becoming an alarm. It costs nothing when nothing is undecided and is capped at
+// six obligations (a genuinely broken tree has its violations reported without it).
+func lastChance(results []*UnitResult, opts SolveOpts) {
+	type item struct {
+		r *UnitResult
+		o *Oblig
+	}
+	var todo []item
+	for _, r := range results {
+		if r == nil || r.Err != nil || r.VC == nil || r.Flags == nil {
+			continue
+		}
+		for _, o := range r.VC.obligs {
+			if o.Cand < 0 && (o.Status == "unknown" || o.Status == "timeout") && o.Solver != "not-rechecked" {
+				todo = append(todo, item{r, o})
+			}
+		}
+	}
+	if len(todo) == 0 || len(todo) > 6 {
+		return
+	}
+	big := opts
+	big.RecheckMs = 3 * opts.RecheckMs
+	big.AllSolvers = false
+	var wg sync.WaitGroup
+	for _, it := range todo {
+		wg.Add(1)
+		go func(it item) {
+			defer wg.Done()
+			prev := *it.o
+			recheck(it.r.VC, it.r.VC.preambleFor(it.r.Flags, it.o, false), it.o, big)
+			if it.o.Status == "unsat" {
+				it.o.Note = "discharged in the last-chance pass (undecided under load before)\n" + it.o.Note
+				return
+			}
+			if it.o.Status != "sat" && it.o.Status != "disagree" {
+				*it.o = prev
+			}
+		}(it)
+	}
+	wg.Wait()
 }
 
 // preRegisterTags gives every package type (T and *T) and the known extern
